@@ -23,6 +23,7 @@ import   "math"
 
 import . "github.com/pbenner/autodiff"
 import . "github.com/pbenner/threadpool"
+import   "github.com/pbenner/autodiff/verifhook"
 
 /* -------------------------------------------------------------------------- */
 
@@ -36,6 +37,8 @@ func (obj *Mixture) EmStep(mixture1, mixture2 *Mixture, data MixtureDataSet, met
   counts := data.GetCounts()
   // compute gamma temporaries
   if err := p.AddRangeJob(0, data.GetN(), g, func(l int, p ThreadPool, erf func() error) error {
+    verifhook.Yield("generic.mixture_em.job")
+    verifhook.Event("generic.mixture_em", l, p.GetThreadId())
     gammaTmp   := tmp[p.GetThreadId()].gammaTmp
     gamma      := tmp[p.GetThreadId()].gamma
     logWeights := tmp[p.GetThreadId()].logWeights
@@ -91,6 +94,7 @@ func (obj *Mixture) EmStep(mixture1, mixture2 *Mixture, data MixtureDataSet, met
     return math.Inf(-1), nil
   }
   // wait for all threads to finish
+  verifhook.Yield("generic.mixture_em.queued")
   if err := p.Wait(g); err != nil {
     return math.Inf(-1), nil
   }
